@@ -56,9 +56,9 @@ class Scratch:
         self.lock = open(os.path.join(self.root, ".lock"), "w")
         fcntl.flock(self.lock, fcntl.LOCK_EX)
 
-    def prepare(self):
+    def prepare(self, kani_needed=None):
         inject.copy_tree(REPO, self.repo)
-        rep = inject.inject(self.repo)
+        rep = inject.inject(self.repo, kani_needed=kani_needed)
         for g in props.PREGEN:
             g(self.repo)
         return rep
@@ -493,7 +493,12 @@ def replay(pid, P, path, scr, logdir):
 def run_property(pid, P, tier, seed, scr, logdir, a, t0):
     if a.replay:
         return replay(pid, P, a.replay, scr, logdir)
-    rep = scr.prepare()
+    # only the harness modules this property's obligations live in are compiled
+    needed = set()
+    for ob in P.get("kani", []):
+        stem = os.path.basename(ob["file"])[:-3]
+        needed.add(stem[len("child_"):] if stem.startswith("child_") else stem)
+    rep = scr.prepare(kani_needed=needed)
     log("scratch copy of %s at %s; injected %d child modules" % (REPO, scr.repo, len(rep["appended_child_modules"])))
     kobs = selected(P.get("kani", []), tier, a.only)
     vobs = selected(P.get("verus", []), tier, a.only)
